@@ -21,12 +21,12 @@ RULE = (
     "10 and 80 (COLUMNS), the whole stream replayed on the emulator after the last operation and compared with the stacked "
     "model; the same sequences on an output without ANSI support must produce exactly the appended lines and no control "
     "code. Random histories of length up to 40, in thorough also with sections created inside indentation scopes and with "
-    "style tags in the text. non-trivial = history that touches >= 2 sections with a write to a non-last section, or "
+    "style tags in the text. Two-output histories (2-30 steps): the standard and error output of one I/O object, each with its own stream and screen, sections created singly or pairwise through IO.section(), write_line with flag words at section verbosity 0/1/2/4 (a suppressed write leaves no trace), texts with backslash-escaped '<' whose visible width is at / next to the terminal width. non-trivial = history that touches >= 2 sections with a write to a non-last section, or "
     "contains a wrapped line; distinct by (width, operation tuple)."
 )
 BOUND = {
-    "quick": "all applicable sequences of depth <= 4 (first op = create) at widths 10 and 80; 1500 random histories of length <= 40",
-    "thorough": "all applicable sequences of depth <= 5 at widths 10 and 80; 100000 random histories of length <= 40",
+    "quick": "all applicable sequences of depth <= 4 (first op = create) at widths 10 and 80; 1500 random histories of length <= 40; 3000 two-output histories",
+    "thorough": "all applicable sequences of depth <= 5 at widths 10 and 80; 100000 random histories of length <= 40; 200000 two-output histories",
 }
 ASSUMPTIONS = [
     "the terminal does not scroll (unbounded height) and uses deferred auto-wrap; trailing blanks of a row are ignored",
@@ -265,17 +265,19 @@ def enumerate_sequences(depth, w, texts, part):
 def plan(tier, seed):
     if tier == "quick":
         specs = [{"part": "enum", "depth": 4, "width": w, "slice": [i, 3]} for w in (10, 80) for i in range(3)]
-        specs += [{"part": "random", "n": 750, "rich": False} for _ in range(2)]
+        specs += [{"part": "random", "n": 750, "rich": False} for _ in range(2)] + [{"part": "multi", "n": 1500} for _ in range(2)]
         return specs
     specs = [{"part": "enum", "depth": 5, "width": w, "slice": [i, 8]} for w in (10, 80) for i in range(8)]
-    specs += [{"part": "random", "n": 12500, "rich": True} for _ in range(8)]
+    specs += [{"part": "random", "n": 12500, "rich": True} for _ in range(8)] + [{"part": "multi", "n": 25000} for _ in range(8)]
     return specs
 
 
 def run(sh, spec):
     repo.activate()
     lab = Lab()
-    if spec["part"] == "enum":
+    if spec["part"] == "multi":
+        run_multi(sh, lab, spec["n"])
+    elif spec["part"] == "enum":
         w = spec["width"]
         texts = texts_for(w)
         last = None
@@ -315,9 +317,113 @@ def run(sh, spec):
                 sh.sample(rec)
 
 
+def lowest(fl):
+    if not fl:
+        return 0
+    return 1 if fl & 1 else (2 if fl & 2 else (4 if fl & 4 else 0))
+
+
+def run_multi(sh, lab, n):
+    """Histories over TWO outputs (as the standard and error output of one I/O object), each with its own stream and
+    screen and its own sections - created one by one or pairwise through IO.section() -, with flagged writes at varying
+    section verbosity (a suppressed write leaves no trace, then or later) and texts with backslash-escaped '<'."""
+    from clikit.api.io import IO, Input
+    from clikit.io.input_stream import StringInputStream
+
+    rng = sh.rng
+    for h in range(n):
+        w = rng.choice([10, 12, 17, 80])
+        os.environ["COLUMNS"] = str(w)
+        streams = [lab.Stream(), lab.Stream()]
+        outs = [lab.Output(streams[0], lab.AnsiFormatter(forced=True)), lab.Output(streams[1], lab.AnsiFormatter(forced=True))]
+        io = IO(Input(StringInputStream("")), outs[0], outs[1])
+        secs = [[], []]      # real section objects per output
+        model = [[], []]     # per output: list of sections, each a list of visible lines
+        texts = texts_for(w) + ["a \\<b> c", "\\<" + "x" * (w - 1), "\\<\\<" + "y" * (w - 2), "z" * (w - 2) + " \\<", "if a \\< b: \\<" + "p" * w, "<b>bold</b> " + "k" * (w - 5)]
+        steps = []
+        ok = True
+        for step in range(rng.randint(2, 30)):
+            o = rng.randrange(2)
+            r = rng.random()
+            if not secs[o] or (r < 0.12 and len(secs[o]) < 3):
+                if rng.random() < 0.4 and len(secs[0]) < 3 and len(secs[1]) < 3:
+                    sio = io.section()
+                    secs[0].append(sio.output)
+                    secs[1].append(sio.error_output)
+                    model[0].append([])
+                    model[1].append([])
+                    steps.append(["new-io-section"])
+                else:
+                    secs[o].append(outs[o].section())
+                    model[o].append([])
+                    steps.append(["new", o])
+                continue
+            k = rng.randrange(len(secs[o]))
+            sec = secs[o][k]
+            if r < 0.2:
+                v = rng.choice([0, 1, 2, 4])
+                sec.set_verbosity(v)
+                steps.append(["set_verbosity", o, k, v])
+                continue
+            text = rng.choice(texts)
+            shown = [strip_tags(l.replace("\\<", "\x00")).replace("\x00", "<") for l in text.split("\n")]
+            try:
+                if r < 0.6:
+                    fl = rng.choice([None, None, 0, 1, 2, 4, 3, 6])
+                    sec.write_line(text, fl)
+                    steps.append(["write_line", o, k, text, fl])
+                    if sec.verbosity >= lowest(fl):
+                        model[o][k] = model[o][k] + shown
+                    else:
+                        sh.count("multi_suppressed_writes")
+                elif r < 0.75:
+                    sec.overwrite(text)
+                    steps.append(["overwrite", o, k, text])
+                    model[o][k] = shown
+                elif r < 0.88:
+                    sec.clear()
+                    steps.append(["clear", o, k])
+                    model[o][k] = []
+                else:
+                    nlines = rng.choice([1, 2])
+                    if not model[o][k]:
+                        continue
+                    sec.clear(nlines)
+                    steps.append(["clear", o, k, nlines])
+                    model[o][k] = model[o][k][: max(0, len(model[o][k]) - nlines)]
+            except Exception as e:
+                sh.violate("operation-raises", {"kind": "multi", "width": w, "steps": steps}, "step %d raised %r" % (step, e))
+                ok = False
+                break
+        if not ok:
+            continue
+        record = {"kind": "multi", "width": w, "steps": steps}
+        sh.case(("multi", w, tuple(tuple(str(x) for x in st) for st in steps)), any(st[0] == "write_line" and st[4] for st in steps) or (secs[0] and secs[1]))
+        for o in range(2):
+            t = Term(w)
+            try:
+                t.feed(streams[o].fetch())
+            except UnknownSequence as e:
+                sh.inconclusive_because("terminal emulator met an unknown control sequence %s" % e)
+                return
+            want = []
+            for sec in model[o]:
+                want += rows_of(sec, w)
+            while want and want[-1] == "":
+                want.pop()
+            sh.count("multi_screens_compared")
+            if t.screen() != want:
+                sh.violate("screen", record, "width %d, %s output: screen %r, stacked section contents %r" % (w, "standard" if o == 0 else "error", t.screen(), want))
+                break
+        if h < 1:
+            sh.sample(record)
+
+
 def finalize(tier, merged):
     c = merged["counters"]
     inc = []
+    if c.get("multi_screens_compared", 0) < 1000 or not c.get("multi_suppressed_writes"):
+        inc.append("two-output histories: too few screens compared or no suppressed write observed: %r" % (c,))
     if c.get("screens_compared", 0) < 1000 or not c.get("plain_streams_compared") or not c.get("bytes_replayed"):
         inc.append("too few screens compared: %r" % (c,))
     return {"inconclusive": inc}
@@ -330,5 +436,8 @@ def replay(sh, case):
     texts = texts_for(w)
     if case.get("tagged"):
         texts = texts + ["<b>bold</b> and <info>green</info>", "<error>" + "e" * (w + 3) + "</error>"]
+    if case.get("kind") == "multi":
+        sh.inconclusive_because("two-output history replay: rerun the check with the same VERIF_SEED (the record lists the steps)")
+        return
     ops = [tuple(o) for o in case["ops"]]
     judge(sh, lab, ops, w, texts, case, case.get("indents"), case.get("tagged", False))
